@@ -321,9 +321,17 @@ int main(int argc, char** argv)
     std::mutex out_mu;
     std::vector<uint64_t> per_stream(g_streams.size());
     std::vector<int> per_stream_k(g_streams.size());
+    // work order: the long limit streams first (they are the slowest single units), then by decreasing length
+    std::vector<size_t> order(g_streams.size());
+    for (size_t i = 0; i < order.size(); i++) order[i] = i;
+    std::stable_sort(order.begin(), order.end(), [&](size_t a, size_t b) {
+        if (g_streams[a].marks.empty() != g_streams[b].marks.empty()) return !g_streams[a].marks.empty();
+        return g_streams[a].bytes.size() > g_streams[b].bytes.size();
+    });
     vx::par_for(g_streams.size(), 1, [&](uint64_t lo, uint64_t hi, unsigned) {
         Driver d;
-        for (uint64_t si = lo; si < hi; si++) {
+        for (uint64_t oi = lo; oi < hi; oi++) {
+            const size_t si = order[oi];
             if (vx::deadline_reached()) { cut_short = true; continue; }
             if (getenv("C52_ONLY_BASE")) continue; // debugging aid: list the single-delivery observations only
             const Stream& st = g_streams[si];
